@@ -85,6 +85,8 @@ pub struct Seen {
     pub requests: Vec<(usize, Result<ParsedRequest, String>)>,
     /// per connection: bytes that followed the first complete request
     pub extra_bytes: Vec<(usize, usize)>,
+    /// simulated time at which each entry of `requests` was recorded (response scripts start then)
+    pub times: Vec<u64>,
 }
 
 pub type Router = Arc<dyn Fn(&ParsedRequest, usize) -> Script + Send + Sync>;
@@ -155,7 +157,7 @@ impl Peer for HttpPeer {
                         if let ReqParse::Complete(r) = parse_request(&strip_framing(&mut head)) {
                             self.responded = true;
                             let script = (self.router)(&r, c.conn());
-                            self.seen.lock().unwrap().requests.push((c.conn(), Ok(*r)));
+                            { let mut s = self.seen.lock().unwrap(); s.times.push(c.now()); s.requests.push((c.conn(), Ok(*r))); }
                             script.play(c, self.respond_delay);
                         }
                     }
@@ -168,12 +170,12 @@ impl Peer for HttpPeer {
                     self.seen.lock().unwrap().extra_bytes.push((c.conn(), extra));
                 }
                 let script = (self.router)(&r, c.conn());
-                self.seen.lock().unwrap().requests.push((c.conn(), Ok(*r)));
+                { let mut s = self.seen.lock().unwrap(); s.times.push(c.now()); s.requests.push((c.conn(), Ok(*r))); }
                 script.play(c, self.respond_delay);
             }
             ReqParse::Malformed(m) => {
                 self.responded = true;
-                self.seen.lock().unwrap().requests.push((c.conn(), Err(m)));
+                { let mut s = self.seen.lock().unwrap(); s.times.push(c.now()); s.requests.push((c.conn(), Err(m))); }
                 // answer something harmless so the client terminates
                 c.send_at(0, b"HTTP/1.1 400 Bad Request\r\nContent-Length: 0\r\n\r\n".to_vec());
                 c.fin_at(NS_PER_MS);
@@ -183,7 +185,7 @@ impl Peer for HttpPeer {
     fn on_client_eof(&mut self, c: &mut dyn Ctl) {
         if !self.responded {
             let m = format!("client closed after {} bytes without a complete request", self.buf.len());
-            self.seen.lock().unwrap().requests.push((c.conn(), Err(m)));
+            { let mut s = self.seen.lock().unwrap(); s.times.push(c.now()); s.requests.push((c.conn(), Err(m))); }
             self.responded = true;
         }
     }
@@ -216,10 +218,15 @@ pub struct RawPeer {
     pub faults: Option<ConnFaults>,
     /// start once the received bytes contain this marker (e.g. b"\r\n\r\n")
     pub marker: Option<Vec<u8>>,
+    /// the client's bytes are not reproducible (TLS records): keep them out of the event-log hash
+    pub opaque: bool,
 }
 
 impl Peer for RawPeer {
     fn on_accept(&mut self, c: &mut dyn Ctl) {
+        if self.opaque {
+            c.set_opaque();
+        }
         if let Some(f) = self.faults.take() {
             c.set_faults(f);
         }
